@@ -91,6 +91,7 @@ class SimSocket:
         self.accepted = False
         self.sh_hdr = None
         self.sh_buf = bytearray()
+        self.timeout = None
         self.tag = None               # harness label (actor name)
 
     # identity -----------------------------------------------------------------
@@ -140,7 +141,16 @@ class SimSocket:
         return ("127.0.0.1", self.peer.port)
 
     def settimeout(self, t):
-        pass
+        if self.closed:
+            raise self._ebadf()
+        # a socket with a timeout is non-blocking underneath: MSG_WAITALL no longer waits for everything
+        self.timeout = t
+
+    def gettimeout(self):
+        return getattr(self, "timeout", None)
+
+    def setblocking(self, flag):
+        self.timeout = None if flag else 0.0
 
     def connect(self, addr):
         if self.closed:
@@ -241,7 +251,7 @@ class SimSocket:
         if nbytes == 0:
             return 0
         try:
-            if flags & _real_socket.MSG_WAITALL:
+            if (flags & _real_socket.MSG_WAITALL) and self.timeout is None:
                 data = self._recv_core(nbytes)
             else:
                 data = self._recv_some(nbytes)
@@ -261,7 +271,7 @@ class SimSocket:
             raise ValueError("negative buffersize in recv")
         if nbytes == 0:
             return b""
-        if flags & _real_socket.MSG_WAITALL:
+        if (flags & _real_socket.MSG_WAITALL) and self.timeout is None:
             data = self._recv_core(nbytes)
         else:
             data = self._recv_some(nbytes)
@@ -373,6 +383,40 @@ class SimSocket:
 
     def send(self, data, flags=0):
         self.sendall(data)
+        return len(data)
+
+    def sendmsg(self, buffers, ancdata=(), flags=0, address=None):
+        """one gather write; like send() it may transfer only part of the data and says so by its
+        return value instead of raising"""
+        data = b"".join(bytes(b) for b in buffers)
+        if self.closed:
+            raise self._ebadf()
+        if self.fault_after is not None and 0 < self.fault_after < len(data) and self.kind == "conn" \
+                and not self.peer.closed and self.rx_rst != 2:
+            k = self.fault_after
+            net = self.net
+            if self.side == "mgr":
+                buf = self.sh_buf
+                buf += data
+                hs = net.hs
+                while len(buf) >= hs:
+                    h = unpack_hdr(net.timecode, buf)
+                    self.sh_hdr = h
+                    need = hs + max(0, h.num_data_bytes)
+                    if len(buf) >= need:
+                        del buf[:need]
+                    else:
+                        break
+            net.deliver_to(self, self.peer, data[:k])
+            self.fault_after = None
+            self.write_failed = True
+            kind = self.fault_kind
+            self.peer.die(kind)
+            if kind == "rst":
+                self.arrive_rst_now()
+            net.on_write_fail(self, k, "SHORT", data)     # the simulator injected a failure here
+            return k
+        self.sendall(data, flags)
         return len(data)
 
     # closing ------------------------------------------------------------------
